@@ -11,6 +11,19 @@ E_EOS, E_CLOSED, E_SHORT = 1, 2, 3
 E_HANG, E_PANIC = 98, 97
 
 
+def replay_cases(ctx, key):
+    """cases of one sub-check stored in a replay file written by a previous run"""
+    rp = ctx.replay or {}
+    out = list(rp.get(key, []))
+    for f in list(rp.get("failures", [])) + list(rp.get("theorem_or_correspondence", [])) + list(rp.get("broken", [])):
+        out += ((f or {}).get("case") or {}).get(key, [])
+    return out
+
+
+REPLAY_KEYS = {"read": "read_cases", "fc": "fc_cases", "hbq": "hbq_cases", "reg": "reg_cases", "mat": "mat_cases",
+               "wd": "wd_cases", "lb": "lb_cases"}
+
+
 # ------------------------------------------------------------------ (i)/(ii) reads
 def msg(d, e=None, role="data"):
     return {"d": d, "e": e, "role": role}
@@ -98,11 +111,15 @@ def gen_read_cases(ctx):
     h = b"6v3jyM521GkBo1lsMyVLcRyzdZ7FKEM3"
     cases.append(read_case(True, 64, h, [msg(b"before"), msg(h, role="data"), msg(b"after", 50)], [64] * 6))
     cases.append(read_case(False, 64, h, [msg(b"before"), msg(h, role="data"), msg(b"after", 50)], [64] * 6))
-    for c in (ctx.replay or {}).get("read_cases", []):
+    for c in replay_cases(ctx, "read_cases"):
         c = dict(c)
         c["hb"] = bytes.fromhex(c["hb"])
-        c["script"] = [msg(bytes.fromhex(m["d"]), m["e"], m.get("role", "data")) for m in c["script"]]
+        roles = c.get("roles") or [m.get("role", "data") for m in c["script"]]
+        c["script"] = [msg(lcg_bytes(m["seed"], m["n"]) if m.get("n") else bytes.fromhex(m.get("d", "")),
+                           None if m["e"] in (None, -1) else m["e"], ro) for m, ro in zip(c["script"], roles)]
         cases.insert(0, c)
+    if ctx.replay:
+        cases = cases[:len(replay_cases(ctx, "read_cases"))]
     return cases
 
 
@@ -173,7 +190,7 @@ def run_reads(ctx):
         ctx.broken("driver", "Go read driver did not produce results: %s" % out[-800:])
         return
     terms = []
-    for c, r in zip(cases, res):
+    for c, j, r in zip(cases, js, res):
         reads = [(bytes.fromhex(x["d"] or ""), None if x["e"] < 0 else x["e"]) for x in (r.get("reads") or [])]
         nhb = sum(1 for m in c["script"] if m["role"] == "hb")
         nerr = sum(1 for m in c["script"] if m["e"] is not None)
@@ -195,16 +212,21 @@ def run_reads(ctx):
                 if read_oracle(c2, reads) is None:
                     key = "read/server/data-message-equals-heartbeat"
             ctx.fail(key, "SCTPConn.Read over the heartbeat %s: %s" % ("server" if c["server"] else "client", text),
-                     {"read_cases": [{"server": c["server"], "mx": c["mx"], "hb": c["hb"].hex(), "sizes": c["sizes"],
-                                      "script": [{"d": m["d"].hex()[:4000], "e": m["e"], "role": m["role"]} for m in c["script"]]}],
+                     {"read_cases": [dict(j, roles=[m["role"] for m in c["script"]])],
                       "observed": [(d.hex()[:200], e) for d, e in reads][:40]})
         terms.append("CRead %s %s %s %s %s %s" % (
             gbool(c["server"]), gN(c["mx"]), hexs(c["hb"]),
             glist(c["script"], lambda m: "(%s, %s)" % (bspec_in(m["d"]), gopt(m["e"], gN))),
             glist(c["sizes"], gN),
             glist(reads, lambda x: "(%s, %s)" % (bspec_obs(x[0]), gopt(x[1], gN)))))
-    ctx.sample({"sub": "read", "case": js[0], "observed": res[0]})
-    ctx.sample({"sub": "read", "case": {k: v for k, v in js[-1].items()}, "observed": res[-1]})
+    try:
+        ctx.sample({"sub": "read", "case": js[0], "observed": res[0]})
+    except (IndexError, KeyError):
+        pass
+    try:
+        ctx.sample({"sub": "read", "case": {k: v for k, v in js[-1].items()}, "observed": res[-1]})
+    except (IndexError, KeyError):
+        pass
     mm = yield ("coq", terms)
     if mm:
         ctx.cov["mismatches"] += len(mm)
@@ -253,8 +275,10 @@ def gen_fc_cases(ctx):
             else:
                 ops.append(("D", rng.choice(dn)))
         cases.append(ops)
-    for c in (ctx.replay or {}).get("fc_cases", []):
+    for c in replay_cases(ctx, "fc_cases"):
         cases.insert(0, [(o[0], o[1]) for o in c])
+    if ctx.replay:
+        cases = cases[:len(replay_cases(ctx, "fc_cases"))]
     return cases
 
 
@@ -303,7 +327,10 @@ def run_fc(ctx):
             glist(steps, lambda st: "(%s, %s, %s, %s)" % (
                 gN(st["buffered"]), gbool(st["token"] > 0), gN(st["writer"]),
                 ("(Some (%s, %s))" % (gN(st["retn"]), gopt(None if st["rete"] < 0 else st["rete"], gN))) if st["ret"] else "None"))))
-    ctx.sample({"sub": "fc", "ops": cases[0], "observed": res[0]})
+    try:
+        ctx.sample({"sub": "fc", "ops": cases[0], "observed": res[0]})
+    except (IndexError, KeyError):
+        pass
     mm = yield ("coq", terms)
     if mm:
         ctx.cov["mismatches"] += len(mm)
@@ -344,6 +371,14 @@ def gen_hbq_cases(ctx):
     # everything queued (and the error) before the reader starts: the case that lost data before the fix
     cases.append({"mx": 8, "hb": hb, "script": [msg(b"\x01\x02"), msg(hb, role="hb"), msg(b"\x03"), msg(b"\x04\x05", 30)],
                   "ops": "rrrr" + "R" * 6})
+    rp = replay_cases(ctx, "hbq_cases")
+    for c in rp:
+        hbb = bytes.fromhex(c["hb"])
+        cases.insert(0, {"mx": c["mx"], "hb": hbb, "ops": c["ops"],
+                         "script": [msg(bytes.fromhex(m["d"]), None if m["e"] in (None, -1) else m["e"],
+                                        "hb" if bytes.fromhex(m["d"]) == hbb else "data") for m in c["script"]]})
+    if ctx.replay:
+        cases = cases[:len(rp)]
     return cases
 
 
@@ -386,7 +421,10 @@ def run_hbq(ctx):
             glist(c["ops"], lambda ch: gbool(ch == "r")),
             glist(outp, lambda o: "(%s, %s, %s)" % (gN(o["kind"]), bspec_obs(bytes.fromhex(o["d"] or "")),
                                                      gopt(None if o["e"] < 0 or o["kind"] != 2 else o["e"], gN)))))
-    ctx.sample({"sub": "hbq", "case": js[-1], "observed": res[-1]})
+    try:
+        ctx.sample({"sub": "hbq", "case": js[-1], "observed": res[-1]})
+    except (IndexError, KeyError):
+        pass
     mm = yield ("coq", terms)
     if mm:
         ctx.cov["mismatches"] += len(mm)
@@ -414,6 +452,8 @@ def gen_wd_cases(ctx):
     # the read deadline of the stream as a second watchdog (oracle only)
     cases.append({"interval_ms": iv, "hb_at": [2], "data_at": [], "quarters": 16, "deadlines": True})
     cases.append({"interval_ms": iv, "hb_at": [2, 6, 10, 14], "data_at": [], "quarters": 18, "deadlines": True})
+    if ctx.replay:
+        cases = replay_cases(ctx, "wd_cases")
     return cases
 
 
@@ -492,7 +532,10 @@ def run_wd(ctx):
             tick = 0 if r["closed_at_ms"] < 0 else int(round(r["closed_at_ms"] / iv))
             terms.append("CWd %s %s" % (glist(wd_expect(c), lambda n: "%d%%nat" % n), gN(tick)))
             tcases.append((c, r))
-    ctx.sample({"sub": "watchdog", "case": cases[0], "observed": res[0]})
+    try:
+        ctx.sample({"sub": "watchdog", "case": cases[0], "observed": res[0]})
+    except (IndexError, KeyError):
+        pass
     mm = yield ("coq", terms)
     if mm:
         # a mismatch may be a timer that fired late under load: re-measure those cases alone
@@ -568,6 +611,9 @@ def gen_reg_cases(ctx):
                 t = rng.randrange(nc)
                 c["ops"].append((rng.choice(["cstep", "cstep", "cstep", "csend", "csend", "ctimeout"]), t))
         cases.append(finish(c))
+    if ctx.replay:
+        cases = [{"nsec": len(j["secrets"]), "asec": j["asec"], "areal": j["areal"], "csec": j["csec"],
+                  "ops": [(o["op"], o["t"]) for o in j["ops"]]} for j in replay_cases(ctx, "reg_cases")]
     return cases
 
 
@@ -621,7 +667,10 @@ def run_reg(ctx):
             glist(c["ops"], lambda x: "(%s, %d%%nat)" % (gN(REG_OPS[x[0]]), x[1])),
             glist(steps, lambda st: "(%s, %s, %s)" % (gN(st["r"] + 1), gN(st["ncerts"]), gN(st["nchans"]))),
             glist(ares, lambda x: gN(x + 1)), glist(apc, gN)))
-    ctx.sample({"sub": "registry", "case": js[0], "observed": res[0]})
+    try:
+        ctx.sample({"sub": "registry", "case": js[0], "observed": res[0]})
+    except (IndexError, KeyError):
+        pass
     mm = yield ("coq", terms)
     if mm:
         ctx.cov["mismatches"] += len(mm)
@@ -645,6 +694,8 @@ def run_mat(ctx):
     base = bytes(range(32))
     cases.append({"secret": base.hex(), "other": (base[:-1] + b"\x20").hex()})
     cases.append({"secret": base.hex(), "other": (base + b"\x00").hex()})
+    if ctx.replay:
+        cases = replay_cases(ctx, "mat_cases")
     res, out = yield ("go", "mat", cases)
     if res is None or len(res) != len(cases):
         ctx.broken("driver", "Go key-material driver did not produce results: %s" % out[-800:])
@@ -676,7 +727,10 @@ def run_mat(ctx):
             hexs(bytes.fromhex(r["stream_hello"])), hexs(bytes.fromhex(r["stream_certs"])), hexs(bytes.fromhex(r["hello"])),
             gN(int(r["client"]["d"], 16)), gN(int(r["client"]["serial"], 16)), hexs(bytes.fromhex(r["client"]["cn"])),
             gN(int(r["server"]["d"], 16)), gN(int(r["server"]["serial"], 16)), hexs(bytes.fromhex(r["server"]["cn"]))))
-    ctx.sample({"sub": "material", "case": cases[2], "observed": {k: v for k, v in res[2].items() if k != "stream_certs"}})
+    try:
+        ctx.sample({"sub": "material", "case": cases[2], "observed": {k: v for k, v in res[2].items() if k != "stream_certs"}})
+    except (IndexError, KeyError):
+        pass
     mm = yield ("coq", terms)
     if mm:
         ctx.cov["mismatches"] += len(mm)
@@ -709,6 +763,8 @@ def gen_lb_cases(ctx):
         dials.append({"sec": nsec - 1, "delay_ms": 0})
         dials.append({"sec": nsec - 2, "delay_ms": rng.randrange(0, 30)})
         cases.append({"secrets": [x.hex() for x in secrets], "accs": accs, "dials": dials, "npairs": npairs})
+    if ctx.replay:
+        cases = replay_cases(ctx, "lb_cases")
     return cases
 
 
@@ -795,7 +851,10 @@ def run_lb(ctx):
         for p in probs:
             ctx.fail("loopback/" + p[0], "real Listener + Dial over loopback UDP (%d pairs): %s" % (c["npairs"], p[1]),
                      {"lb_cases": [c], "observed": r})
-    ctx.sample({"sub": "loopback", "pairs": cases[0]["npairs"], "observed": res[0]})
+    try:
+        ctx.sample({"sub": "loopback", "pairs": cases[0]["npairs"], "observed": res[0]})
+    except (IndexError, KeyError):
+        pass
     ctx.cov["measured_only"] = ["pion DTLS handshake and SCTP association over loopback UDP (oracle on outcomes, no model comparison)",
                                 "heartbeat interval timers (watchdog close time within 2 intervals + tolerance)",
                                 "accept cancellation latency"]
@@ -819,8 +878,13 @@ def run(ctx):
         "the code between Lock/Unlock and single channel operations are atomic steps (Go memory model; -race in the thorough tier)",
         "the watchdog automaton is tied to hbLoop by measured close times only (real timers)",
     ]
-    ctx.coq_props()
+    ctx.coq_props(props_files=["C16/Props.v", "C16/Refuted.v"])
+    rc, out = ctx.coq_make(["C16/Examples.vo"])
+    if rc != 0:
+        ctx.broken("examples", "non-vacuity examples (coq/C16/Examples.v) no longer check: " + out[-500:])
     only = (ctx.replay or {}).get("only")
+    if ctx.replay and not only:
+        only = [k for k, v in REPLAY_KEYS.items() if replay_cases(ctx, v)] or ["none"]
     subs = [("read", run_reads), ("fc", run_fc), ("hbq", run_hbq), ("reg", run_reg), ("mat", run_mat), ("wd", run_wd), ("lb", run_lb)]
     import time
     ctx.cov["timing_s"] = {}
